@@ -360,6 +360,10 @@ func runEntry(c *mon.Ctx, e *entry, skipped map[string]bool) {
 			continue
 		}
 		key := e.Name + "." + m.Name
+		recvIsInput := probeReceiverIsInput(e, m, alias)
+		if len(alias) > 0 && !recvIsInput {
+			overlapCases(c, e, m, key, alias)
+		}
 		parts := partitions(1 + len(alias))
 		for shape := 0; shape < e.Shapes; shape++ {
 			for _, part := range parts {
@@ -395,7 +399,7 @@ func runEntry(c *mon.Ctx, e *entry, skipped map[string]bool) {
 							vals[b] = 4 + 2*b
 						}
 					}
-					runCase(c, e, m, key, alias, part, vals, shape)
+					runCase(c, e, m, key, alias, part, vals, shape, recvIsInput)
 				}
 				c.Class(fmt.Sprintf("%s/partition%v/shape%d", key, part, shape))
 			}
@@ -403,7 +407,165 @@ func runEntry(c *mon.Ctx, e *entry, skipped map[string]bool) {
 	}
 }
 
-func runCase(c *mon.Ctx, e *entry, m reflect.Method, key string, alias, part, vals []int, shape int) {
+// overlapCases: slice types only. The receiver and one operand are views of different lengths into one array (p :=
+// q[:k], or q := p[:k]): not the same object, so the operand is "an operand other than the receiver" and must come out
+// unchanged, and the receiver must get the value it gets with separate arrays.
+func overlapCases(c *mon.Ctx, e *entry, m reflect.Method, key string, alias []int) {
+	mt := m.Type
+	T := mt.In(0).Elem()
+	if T.Kind() != reflect.Slice {
+		return
+	}
+	for shape := 0; shape < e.Shapes; shape++ {
+		for _, apos := range alias {
+			for dir := 0; dir < 2; dir++ {
+				full := reflect.ValueOf(e.Sample(4, shape)) // *T
+				n := full.Elem().Len()
+				if n < 2 {
+					continue
+				}
+				k := n / 2
+				mk := func(overlap bool) (recv reflect.Value, args []reflect.Value, operand reflect.Value) {
+					base := reflect.ValueOf(e.Sample(4, shape))
+					short := reflect.New(T)
+					if overlap {
+						short.Elem().Set(base.Elem().Slice(0, k)) // capacity runs to the end of base
+					} else {
+						cp := reflect.MakeSlice(T, k, n)
+						reflect.Copy(cp, base.Elem().Slice(0, k))
+						short.Elem().Set(cp)
+					}
+					if dir == 0 {
+						recv, operand = short, base // receiver is a prefix view of the operand
+					} else {
+						recv, operand = base, short // operand is a prefix view of the receiver
+					}
+					args = make([]reflect.Value, mt.NumIn()-1)
+					oi := 0
+					for kk := 1; kk < mt.NumIn(); kk++ {
+						isAlias := false
+						for _, a := range alias {
+							if a == kk {
+								isAlias = true
+							}
+						}
+						switch {
+						case kk == apos:
+							if mt.In(kk).Kind() == reflect.Pointer {
+								args[kk-1] = operand
+							} else {
+								args[kk-1] = operand.Elem()
+							}
+						case isAlias:
+							o := reflect.ValueOf(e.Sample(6+oi, shape))
+							oi++
+							if mt.In(kk).Kind() == reflect.Pointer {
+								args[kk-1] = o
+							} else {
+								args[kk-1] = o.Elem()
+							}
+						default:
+							v, _ := otherArg(mt.In(kk), kk, shape)
+							args[kk-1] = v
+						}
+					}
+					return
+				}
+				call := func(recv reflect.Value, args []reflect.Value) (pan any) {
+					defer func() { pan = recover() }()
+					recv.MethodByName(m.Name).Call(args)
+					return
+				}
+				rr, ra, _ := mk(false)
+				if call(rr, ra) != nil {
+					continue // outside the contract (length mismatch)
+				}
+				or, oa, oop := mk(true)
+				opBefore := reflect.MakeSlice(T, oop.Elem().Len(), oop.Elem().Len())
+				reflect.Copy(opBefore, oop.Elem())
+				desc := func() string {
+					return fmt.Sprintf("%s, operand %d and receiver views of one array (dir %d: 0 = receiver is operand[:%d], 1 = operand is receiver[:%d]), shape %d", key, apos, dir, k, k, shape)
+				}
+				c.Eval(key, 1)
+				if p := call(or, oa); p != nil {
+					c.Fail(key+"/panic-when-overlapping", "%s: panics only when the slices overlap: %v", desc(), p)
+					continue
+				}
+				if !same(or, rr) {
+					c.Fail(key+"/overlapping-result-differs", "%s: receiver = %s, with separate arrays = %s", desc(), show(or), show(rr))
+					continue
+				}
+				if dir == 0 && !reflect.DeepEqual(oop.Elem().Interface(), opBefore.Interface()) {
+					c.Fail(key+"/operand-modified/overlapping-view", "%s: the operand (not the receiver object) was modified: %s", desc(), show(oop))
+				}
+				c.Class(fmt.Sprintf("%s/overlap/%d/%d", key, apos, dir))
+			}
+		}
+	}
+}
+
+// probeReceiverIsInput runs the method on generic, pairwise distinct operands with two different receiver contents: if
+// the resulting receivers differ (or a call panics) the receiver is one of the inputs (in-place methods such as
+// AddAssign, AddMixed); otherwise it is a pure destination. Generic operands only: special values are what the cases
+// themselves are for.
+func probeReceiverIsInput(e *entry, m reflect.Method, alias []int) bool {
+	mt := m.Type
+	recvIsPtr := mt.In(0).Kind() == reflect.Pointer
+	for shape := 0; shape < e.Shapes && shape < 3; shape++ {
+		var res [2]reflect.Value
+		for r := 0; r < 2; r++ {
+			recv := reflect.ValueOf(e.Sample(15+r, shape))
+			args := make([]reflect.Value, mt.NumIn()-1)
+			ai := 0
+			for k := 1; k < mt.NumIn(); k++ {
+				isAlias := false
+				for _, a := range alias {
+					if a == k {
+						isAlias = true
+					}
+				}
+				if isAlias {
+					o := reflect.ValueOf(e.Sample(3+ai, shape))
+					ai++
+					if mt.In(k).Kind() == reflect.Pointer {
+						args[k-1] = o
+					} else {
+						args[k-1] = o.Elem()
+					}
+				} else {
+					v, ok := otherArg(mt.In(k), k, shape)
+					if !ok {
+						return true
+					}
+					args[k-1] = v
+				}
+			}
+			panicked := false
+			func() {
+				defer func() {
+					if recover() != nil {
+						panicked = true
+					}
+				}()
+				rr := recv
+				if !recvIsPtr {
+					rr = recv.Elem()
+				}
+				rr.MethodByName(m.Name).Call(args)
+			}()
+			if panicked {
+				return true
+			}
+			res[r] = recv
+		}
+		if !same(res[0], res[1]) {
+			return true
+		}
+	}
+	return false
+}
+
+func runCase(c *mon.Ctx, e *entry, m reflect.Method, key string, alias, part, vals []int, shape int, recvIsInput bool) {
 	mt := m.Type
 	recvIsPtr := mt.In(0).Kind() == reflect.Pointer
 	variant := 0
@@ -423,6 +585,11 @@ func runCase(c *mon.Ctx, e *entry, m reflect.Method, key string, alias, part, va
 		} else {
 			for pos, b := range part {
 				objs[pos] = reflect.ValueOf(e.Sample(vals[b], shape))
+			}
+			if !recvIsInput {
+				// the receiver is a pure destination for this method (probed in runEntry): in the reference run it starts
+				// with unrelated content, so a method that leaves it untouched in some branch cannot pass by accident
+				objs[0] = reflect.ValueOf(e.Sample(17+variant%3, shape))
 			}
 		}
 		recv = objs[0]
@@ -476,6 +643,17 @@ func runCase(c *mon.Ctx, e *entry, m reflect.Method, key string, alias, part, va
 	if apan != nil {
 		c.Fail(key+"/panic-when-aliased/"+fmt.Sprint(part), "%s: panics only when aliased: %v", desc(), apan)
 		return
+	}
+	// a nil pointer result means "no result, receiver left as it was" (documented for Sqrt of a non-residue): both runs
+	// must agree on that, and then there is no value to compare
+	if len(fres) > 0 && fres[0].Kind() == reflect.Pointer && len(ares) > 0 {
+		if fres[0].IsNil() != ares[0].IsNil() {
+			c.Fail(key+"/aliased-return-differs/"+fmt.Sprint(part), "%s: one call returned nil, the other did not", desc())
+			return
+		}
+		if fres[0].IsNil() {
+			return
+		}
 	}
 	// receiver result
 	if !same(ar, fr) {
